@@ -202,6 +202,31 @@ def check_html(case, text, r, out):
             return
 
 
+    # element errors of the set header/trailer themselves (ST02, SE01 ...) are shown next to the ST or the SE line
+    tree_sets = [(ii, gi, si) for ii, isa in enumerate(r.struct) for gi, gs in enumerate(isa['gs']) for si, _ in enumerate(gs['st'])]
+    src_sets = [s_ for g_ in WL.source_groups(case['doc']) for s_ in g_['sets']]
+    if len(tree_sets) == len(src_sets):
+        for e in r.errors:
+            if e.level != 'ele' or e.seg_id != 'ST' or e.st is None or (e.isa, e.gs, e.st) not in tree_sets:
+                continue
+            ss = src_sets[tree_sets.index((e.isa, e.gs, e.st))]
+            lines = [ss['a'] + 1] + ([ss['b'] + 1] if ss['b'] is not None else [])
+            msg = norm(e.msg)
+            shown = False
+            for ln in lines:
+                if ln not in pos_of_line:
+                    continue
+                lo = pos_of_line.get(ln - 1, -1)
+                hi = pos_of_line.get(ln + 1, len(segs))
+                if any(msg in t for k, t in segs[lo + 1:hi] if k == 'error'):
+                    shown = True
+            if not shown:
+                out.violate('errors', 'error-not-shown|st-se-ele%s' % e.code,
+                            'element error %s of the ST/SE of set %d (%r) is shown neither at the ST line nor at the SE line %r' % (
+                                e.code, tree_sets.index((e.isa, e.gs, e.st)) + 1, e.msg[:100], lines))
+                return
+
+
 def shrink(case, still):
     return _c05.shrink(case, still)
 
